@@ -147,6 +147,9 @@ fn main() {
     // warm the backtrace machinery (symbol cache) outside of any measured region
     {
         let _g = mon::Excl::new();
+        if std::env::var("VERIF_TOUCH").is_ok() {
+            verbs_fault::TOUCH.store(true, std::sync::atomic::Ordering::Relaxed);
+        }
         if std::env::var("VERIF_NO_WARM").is_err() {
             let _ = format!("{}", std::backtrace::Backtrace::force_capture());
         }
